@@ -126,6 +126,13 @@ func genBad(t *rapid.T) badCase {
 	default:
 		c.Text = mutateText(t, validText(t, typ))
 	}
+	if typ == "TaskType" && rapid.IntRange(0, 3).Draw(t, "fraction") == 0 {
+		// a JSON number that is no whole number, next to a valid code: there is no task type 2.5 (truncating or rounding it
+		// would produce a different, valid value)
+		k := rapid.IntRange(1, 13).Draw(t, "code")
+		c.Raw, c.MustReject = true, "a JSON number that is not a whole number"
+		c.Text = []string{fmt.Sprintf("%d.5", k), fmt.Sprintf("%d.999", k), fmt.Sprintf("%d.0000001", k), fmt.Sprintf("0.%d5e1", k%10), fmt.Sprintf("%d.25", k), fmt.Sprintf("%d5e-1", k)}[rapid.IntRange(0, 5).Draw(t, "fraction.form")]
+	}
 	return c
 }
 
